@@ -76,7 +76,7 @@ fn cancel_body(p: &CancelParams) {
     let _guard = LogFileGuard(if kind == Kind::MultiMmapLog { Some(name.clone()) } else { None });
     let key = |oracle: &str| format!("cancel/{}/{}/{}", kind.name(), p.action.name(), oracle);
     let ch: ChanArc = Arc::new(chan::make::<Tracked>(kind, p.buffer, p.max_streams, &name));
-    let shared = Arc::new(HLock::new(Shared { events: vec![], producers_active: p.producers.len() }));
+    let shared = Arc::new(HLock::new(Shared { events: vec![], drops: vec![], producers_active: p.producers.len() }));
     // streams first (Multi listeners only see what is sent during their life), then the events already buffered
     let mut drivers = vec![];
     let mut stream_ids = vec![];
@@ -225,7 +225,11 @@ fn cancel_body(p: &CancelParams) {
                 let thread_no = 1 + n_prod + *s;
                 for e in accepted.iter() {
                     if !sh.events.iter().any(|y| y.thread == thread_no && y.kind == EvKind::Poll && y.accepted && y.id == e.id) {
-                        ctx::report("C07", "untargeted_starved", key("untargeted_starved"), format!("listener #{} was not told to end, yet it never yielded accepted event {:#x}", s, e.id));
+                        // which history is it? The send ran while a listener with a lower stream id was being removed (the live
+                        // list is compacted under the sender's cursor -- the recorded finding), or nothing of the kind happened
+                        let removal_under_the_cursor = (0..p.streams).any(|t| targeted[t] && stream_ids[t] < stream_ids[*s] && sh.drops.iter().any(|(th, d_inv, d_ret)| *th == 1 + n_prod + t && *d_inv < e.ret && e.inv < *d_ret));
+                        let oracle = if removal_under_the_cursor { "untargeted_starved" } else { "untargeted_starved_without_a_concurrent_removal" };
+                        ctx::report("C07", oracle, key(oracle), format!("listener #{} (stream id {}) was not told to end, yet it never yielded accepted event {:#x} (sent during stamps {}..{}; removals of listeners (thread, from, to): {:?})", s, stream_ids[*s], e.id, e.inv, e.ret, sh.drops));
                         break;
                     }
                 }
@@ -390,6 +394,11 @@ impl Scenario for Cancel {
     fn size(&self, p: &CancelParams) -> u64 {
         p.producers.iter().map(|o| o.len() as u64).sum::<u64>() * 4 + p.streams as u64 * 2 + p.prefill as u64 + p.delay as u64 / 8
     }
+    fn livelock_in_scope(&self, _p: &CancelParams, op: &str) -> bool {
+        // C07 speaks about the requests and about the streams; a *send* that never returns while listeners are being
+        // removed is the fan-out vs. live-list race (C17's subject) and is not judged here
+        op == "poll_next" || op.contains("cancel_all_streams") || op.contains("gracefully_end")
+    }
     fn assumptions(&self) -> Vec<String> {
         vec![
             "sequential consistency at the instrumented atomics; the plain shared cells (keep_streams_running[], wakers[], used_streams[]) interleave at the instrumented yield points, whole accesses only".into(),
@@ -483,7 +492,7 @@ fn suspend_body(p: &SuspendParams) {
     let kind_name = kind.name();
     let key = |oracle: &str| format!("suspend/{}/{}", kind_name, oracle);
     let ch: ChanArc = Arc::new(chan::make::<Tracked>(kind, p.buffer, p.max_streams, "unused"));
-    let shared = Arc::new(HLock::new(Shared { events: vec![], producers_active: 0 }));
+    let shared = Arc::new(HLock::new(Shared { events: vec![], drops: vec![], producers_active: 0 }));
     let state = Arc::new(HLock::new(SuspState { suspended_now: vec![false; p.suspended.len()], idle: vec![false; p.suspended.len()], finished: vec![None; p.suspended.len()], thread_done: vec![false; p.suspended.len()], release: false }));
     let mut drivers = vec![];
     let mut driver_handles = vec![];
